@@ -121,7 +121,7 @@ def stepBitmap (st : St) (op : String) (kv : KV) : St × String :=
         let c := b.clone
         ({ st with bms := tset st.bms (kv.nat "d") c }, s!"ok len={c.size} bs={c.byteSize} w={fmtWords c.map}")
       | "b.enlarge" =>
-        match b.enlarge (kv.nat "add") with
+        match (if st.chk then b.enlarge (kv.nat "add") else .ok (b.enlargeUnchecked (kv.nat "add"))) with
         | .ok b' => ({ st with bms := tset st.bms id b' }, s!"ok len={b'.size} bs={b'.byteSize} w={fmtWords b'.map}")
         | .err e => (st, fmtErr e)
         | .panic => (st, "panic")
